@@ -1,6 +1,8 @@
 /-
   C18/Driver — line protocol front end (core-only).
     inject <k> <intry|free> <vars|-> <program>   a foreign panic injected at evaluation step k of the C01-language program
+    hostpanic <j> <intry|free> <vars|-> <program>  the j-th call of the host function `log` panics with a Go value
+    swallow <0|1|2|3|closed>                     what Go callers may do with a halt; a closed Interrupt channel
     halt <k> <intry|free> <vars|-> <program>     an interrupt function that panics, delivered through the real channel at step k
     depth <L> <d> <leaf>            stack limit L, d nested script calls whose innermost enters further scopes (leaf kind)
     interrupt <shape>               a halting interrupt sent while a script spins
@@ -43,7 +45,7 @@ def leafExtra (leaf : String) : Option Nat :=
 
 def handle (ws : List String) : String :=
   match ws with
-  | ["inject", _k, where_, _vars, prog] =>
+  | ["hostpanic", _k, where_, _vars, prog] | ["inject", _k, where_, _vars, prog] =>
     match OttoVerif.C01.Driver.parseSX prog.toList with
     | some (.node "P" ss, []) =>
       match OttoVerif.C01.Driver.stmtsOf ss with
@@ -106,6 +108,16 @@ def handle (ws : List String) : String :=
       | "1" => "copy:1999000,<nil>,stolen=0;template:1999000,<nil>,calls=1;rest:ok;follow:ok"
       | "3" => "copy:1999000,<nil>,stolen=0;halted;template:1999000,<nil>,calls=1;rest:ok;follow:ok"
       | "4" => "copy:string,template:undefined;then:copy:copy,template:template"
+      | _ => "bad-op"
+    if t = "bad-op" then t else t ++ " " ++ t ++ " -"
+  | ["swallow", v] =>
+    -- a halt that a Go caller recovered is over (the next panic is an ordinary one: `other_exits_caught`); one it
+    -- lets pass or panics with again is still the halt (`halt_not_caught`); a closed channel delivers nothing
+    let t := match v with
+      | "0" => "returned:caught:TypeError:_from_host;then:1,<nil>;rest:ok;follow:ok"
+      | "1" | "3" => "halted;rest:ok;follow:ok"
+      | "2" => "returned:returned;then:1,<nil>;rest:ok;follow:ok"
+      | "closed" => "returned:110,<nil>;rest:ok;follow:ok"
       | _ => "bad-op"
     if t = "bad-op" then t else t ++ " " ++ t ++ " -"
   | ["reenter", _k, _vars, _prog] =>
